@@ -49,6 +49,19 @@ def request_key_var(ctx, fn, name):
     return None
 
 
+def _membership_guarded(ctx, fn, ins):
+    """The statement runs only under `<key> in <the dictionary it modifies>`."""
+    g = C.cfg_of(fn)
+    sn = C.stmt_node(ctx, fn, ins.node)
+    if sn is None:
+        return False
+    for b, lab in g.control_deps(sn):
+        t = C.test_expr(b)
+        if isinstance(t, ast.Compare) and len(t.ops) == 1 and isinstance(t.ops[0], ast.In) and lab == "true" and norm(t.left) == norm(ins.key) and norm(t.comparators[0]) == norm(ins.base):
+            return True
+    return False
+
+
 _KV_RD = {}
 
 
@@ -134,6 +147,15 @@ def run(ctx):
         if cks is not None:
             # a key variable that ranges over a literal tuple of field names
             bad_keys = [k for k in cks if k not in level_keys]
+            if bad_keys and ins.how == "del" and all(k in (TOP_EDITABLE | INFO_EDITABLE) for k in cks) and _membership_guarded(ctx, fn, ins):
+                # `if key in d: del d[key]` with key ranging over the editable fields of both levels: removes the named
+                # field from wherever the metafile keeps it (the same thing the request-driven filter does)
+                ctx.holds("C07.1", fn, "removal, under `key in <that dictionary>`, of a key that ranges over the editable fields %s" % cks, ins.node)
+                continue
+            if bad_keys and ins.how == "store" and isinstance(ins.base, ast.Subscript):
+                # sections[section][key] = value: which dictionary is written is selected by a second table column
+                ctx.undecided("C07.1", fn, "store under a key variable that ranges over %s into a dictionary selected by `%s`: that every field goes to its own level is not decided" % (cks, norm(ins.base)), ins.node)
+                continue
             if bad_keys:
                 ctx.violated("C07.1", fn, "edit %s key %r (one of the constants the key variable ranges over), which is not an editable field at this level (editable: %s)" % (
                     "removes" if ins.how == "del" else "writes", bad_keys[0], sorted(level_keys)), ins.node)
@@ -188,6 +210,14 @@ def run(ctx):
             if C.branch_when(b, atom_nn) == lab:
                 guarded = True
         if not guarded:
+            og = _opaque_none_guard(ctx, edit, node, request_params, field=field)
+            if og is None and _guarded_by_table_row(ctx, edit, node, request_params, field):
+                ctx.holds("C07.2", edit, "store to %r runs only when the conversion of the request entry %r is not None, and that conversion maps a field that is not named (None) to None" % (ck, field), ins.node)
+                continue
+            if og is not None:
+                ctx.undecided("C07.2", edit, "store to %r runs under `%s`, whose operand comes out of a conversion this rule cannot fold for an unnamed field (None): whether an edit that does not name %r "
+                              "reaches the store is not decided" % (ck, og, field), ins.node)
+                continue
             ctx.violated("C07.2", edit, "store to %r is not control-dependent on the request naming field %r: an edit that does not name it still changes it" % (ck, field), ins.node)
             continue
         t = flow.term(ins.value, edit)
@@ -238,6 +268,16 @@ def run(ctx):
                 return None
             if C.branch_when(b, atom_kv_nn) == lab:
                 named = True
+        if not named:
+            why = []
+            og = _opaque_none_guard(ctx, edit, node, request_params, found=why)
+            if og is None and why:
+                ctx.violated("C07.2", edit, "store under the key variable %r: %s, so the store runs for it although the edit did not name it" % (kv, why[0]), ins.node)
+                continue
+            if og is not None:
+                ctx.undecided("C07.2", edit, "store under the key variable %r runs under `%s`, whose operand comes out of a conversion this rule cannot fold for an unnamed field (None): whether an edit "
+                              "that does not name the field reaches the store is not decided" % (kv, og), ins.node)
+                continue
         if not named:
             ctx.violated("C07.2", edit, "store under the key variable %r is not control-dependent on the request naming that field (`%s in args`): an edit that does not name it still changes it" % (kv, kv), ins.node)
             continue
@@ -471,8 +511,180 @@ def _none_when_unnamed(ctx, fn, name_node, at, field, request_params, keyvar=Non
     return True
 
 
+def _opaque_none_guard(ctx, fn, node, request_params, field=None, found=None):
+    """The statement runs only when some local X `is not None` (or is truthy), and X comes out of a call that was handed a
+    request read and whose callee this rule cannot fold for None (a function taken from a table, a helper with several
+    parameters): whether an unnamed field reaches the statement is then not decided.  Returns the text of the test."""
+    from tfsa.reach import ReachDefs
+    g = C.cfg_of(fn)
+    rd = ReachDefs(fn, g)
+
+    def reads_request(e, depth=0):
+        for x in ast.walk(e):
+            if isinstance(x, ast.Call) and isinstance(x.func, ast.Attribute) and x.func.attr in ("get", "pop") and isinstance(x.func.value, ast.Name) and x.func.value.id in request_params:
+                return True
+            if isinstance(x, ast.Subscript) and isinstance(x.value, ast.Name) and x.value.id in request_params:
+                return True
+            if isinstance(x, ast.Name) and depth < 3 and x.id not in request_params:
+                for w_, p_ in ctx.res.bindings(fn).get(x.id, []):
+                    if w_ == "value" and p_ is not e and reads_request(p_, depth + 1):
+                        return True
+        return False
+    for b, lab in g.control_deps(node):
+        t = C.test_expr(b)
+        if t is None:
+            continue
+        for a in C.atoms_of(t):
+            x = None
+            if isinstance(a, ast.Compare) and len(a.ops) == 1 and isinstance(a.ops[0], (ast.Is, ast.IsNot)) and isinstance(a.comparators[0], ast.Constant) and a.comparators[0].value is None \
+                    and isinstance(a.left, ast.Name):
+                x = a.left
+            elif isinstance(a, ast.Name):
+                x = a
+            if x is None:
+                continue
+            for d in rd.reaching(x.id, b):
+                v = d.value if d.kind == "assign" else None
+                if isinstance(v, ast.Call) and not (isinstance(v.func, ast.Attribute) and v.func.attr in ("get", "pop")) and any(reads_request(arg) for arg in v.args):
+                    tg = C.targets_of(ctx, fn, v)
+                    if not tg and isinstance(v.func, ast.Name):
+                        rows = table_callables(ctx, fn, v.func.id) or []
+                        # a store under a constant key belongs to the row of the table that carries that key
+                        if field is not None and any(k == field for k, _ in rows):
+                            rows = [(k, h) for k, h in rows if k == field]
+                        tg = [h for _, h in rows]
+                        culprit = [(k, h) for k, h in rows if _value_for_none(ctx, h) == "notnone"]
+                        if culprit and found is not None:
+                            found.append("the conversion %s of field %r turns a field the request does not name (None) into a value" % (culprit[0][1].name, culprit[0][0]))
+                    vals = [_value_for_none(ctx, h) for h in tg]
+                    if tg and "notnone" in vals:
+                        # one of the conversions turns "not requested" into a value: the store is reached for a field
+                        # the request does not name
+                        return None
+                    if not tg or "unknown" in vals:
+                        return norm(t)
+    return None
+
+
+def _guarded_by_table_row(ctx, fn, node, request_params, field):
+    """The statement runs only when `X is not None` for a local X = convert(<request>.get(key)) with `convert` the function the
+    table assigns to `field`, and that function returns None for None."""
+    from tfsa.reach import ReachDefs
+    g = C.cfg_of(fn)
+    rd = ReachDefs(fn, g)
+    for b, lab in g.control_deps(node):
+        t = C.test_expr(b)
+        if t is None:
+            continue
+        for a in C.atoms_of(t):
+            if not (isinstance(a, ast.Compare) and len(a.ops) == 1 and isinstance(a.ops[0], (ast.Is, ast.IsNot)) and isinstance(a.comparators[0], ast.Constant)
+                    and a.comparators[0].value is None and isinstance(a.left, ast.Name)):
+                continue
+            # reaching the statement requires X is not None
+            if C.branch_when(b, lambda x, a=a: isinstance(a.ops[0], ast.Is) if x is a else None) in (None, lab):
+                continue
+            for d in rd.reaching(a.left.id, b):
+                v = d.value if d.kind == "assign" else None
+                if isinstance(v, ast.Call) and isinstance(v.func, ast.Name) and not C.targets_of(ctx, fn, v):
+                    rows = [(k, h) for k, h in (table_callables(ctx, fn, v.func.id) or []) if k == field]
+                    if rows and all(_value_for_none(ctx, h) == "none" for _, h in rows):
+                        return True
+    return False
+
+
 def _returns_none_for_none(ctx, h):
     """Every path of package function h taken with its (single) argument = None returns None (tests folded with the literal)."""
+    return _value_for_none(ctx, h) == "none"
+
+
+def _value_for_none(ctx, h):
+    """'none' / 'notnone' / 'unknown': what package function h returns when its single argument is None."""
+    params = [p_ for p_ in h.params if p_ != h.self_name]
+    if len(params) != 1 or h.is_generator:
+        return "unknown"
+    g = C.cfg_of(h)
+    env = {params[0]: None}
+
+    def atom(x):
+        try:
+            return bool(const_fold(x, env))
+        except _Unknown:
+            return None
+    try:
+        visited, term = C.trace(g, g.entry, atom)
+    except C.Undetermined:
+        return "unknown"
+    rets = [n.ast for n in visited if n.kind == "stmt" and isinstance(n.ast, ast.Return)]
+    if not rets:
+        return "none" if term == "exit" else "unknown"
+    r = rets[-1]
+    if r.value is None:
+        return "none"
+    try:
+        v = r.value
+        if isinstance(v, ast.IfExp):
+            v = v.body if bool(const_fold(v.test, env)) else v.orelse
+        return "none" if const_fold(v, env) is None else "notnone"
+    except _Unknown:
+        return "unknown"
+
+
+def table_callables(ctx, fn, name):
+    """`name` is a loop variable that takes a column of `for k, (a, name) in TABLE.items()` / `for a, name in TABLE` with TABLE a
+    display of constants and package functions: the functions of that column, else None."""
+    for loop in [n for n in own_nodes(fn.node) if isinstance(n, ast.For)]:
+        pos = None
+
+        def find(t, path):
+            nonlocal pos
+            if isinstance(t, ast.Name) and t.id == name:
+                pos = path
+            elif isinstance(t, (ast.Tuple, ast.List)):
+                for i, x in enumerate(t.elts):
+                    find(x, path + (i,))
+        find(loop.target, ())
+        if pos is None:
+            continue
+        it = loop.iter
+        rows = None
+        if isinstance(it, ast.Call) and isinstance(it.func, ast.Attribute) and it.func.attr == "items" and isinstance(it.func.value, ast.Name):
+            d = _single_display(ctx, fn, it.func.value.id)
+            if isinstance(d, ast.Dict) and all(k is not None for k in d.keys):
+                rows = [ast.Tuple(elts=[k, v], ctx=ast.Load()) for k, v in zip(d.keys, d.values)]
+        elif isinstance(it, ast.Name):
+            d = _single_display(ctx, fn, it.id)
+            if isinstance(d, (ast.Tuple, ast.List)):
+                rows = list(d.elts)
+        elif isinstance(it, (ast.Tuple, ast.List)):
+            rows = list(it.elts)
+        if rows is None:
+            return None
+        out = []
+        for r in rows:
+            x = r
+            for i in pos:
+                if not isinstance(x, (ast.Tuple, ast.List)) or i >= len(x.elts):
+                    return None
+                x = x.elts[i]
+            fs_ = [k[1] for k in ctx.res.kinds(x, fn) if k[0] == "func"]
+            if len(fs_) != 1:
+                return None
+            first = r.elts[0] if isinstance(r, (ast.Tuple, ast.List)) and r.elts else None
+            out.append((const_str(first) if first is not None else None, fs_[0]))
+        return out
+    return None
+
+
+def _single_display(ctx, fn, name):
+    bl = ctx.res.bindings(fn).get(name, [])
+    if len(bl) == 1 and bl[0][0] == "value":
+        return bl[0][1]
+    if not bl and fn.module is not None and len(fn.module.assigns.get(name, [])) == 1:
+        return fn.module.assigns[name][0]
+    return None
+
+
+def _UNUSED_returns_none_for_none(ctx, h):
     params = [p_ for p_ in h.params if p_ != h.self_name]
     if len(params) != 1 or h.is_generator:
         return False
